@@ -21,7 +21,9 @@ Proof. exact repeat_track_same. Qed.
 
 Theorem C11_clone_and_optimise_leave_original : forall s b k,
   snd (step s (CloneTrack b)) = snd (step s (Track b))
-  /\ fst (step s (CloneTrack b)) = s /\ fst (step s (Optim k b)) = s.
+  /\ fst (step s (CloneTrack b)) = s
+  /\ params (fst (step s (Optim k b))) = params s /\ act (fst (step s (Optim k b))) = act s
+  /\ fst (step s (Optim k b)) = fst (step s (Track b)).
 Proof. exact clone_and_optim_track_like_original. Qed.
 
 (* parameters change by assignment only *)
@@ -41,7 +43,8 @@ Theorem C11_track_records_when_active : forall s b d, (d < length (recd s))%nat 
   nth d (recd (fst (step s (Track b)))) None = if nth d (act s) false then Some (tok s b) else nth d (recd s) None.
 Proof. exact track_records_when_active. Qed.
 
-Theorem C11_only_track_changes_recorded : forall s o, (forall b, o <> Track b) -> recd (fst (step s o)) = recd s.
+Theorem C11_only_track_changes_recorded : forall s o,
+  (forall b, o <> Track b) -> (forall k b, o <> Optim k b) -> recd (fst (step s o)) = recd s.
 Proof. exact only_track_changes_recorded. Qed.
 
 Example C11_nonvacuous :
